@@ -125,6 +125,12 @@ func runC04Sweep(r *simkit.Run) {
 	if tp.Chance(1, 3) {
 		p2 = ad.gen(tp, ids, gen.Shape{MaxResources: 1, MaxScopes: 2, MaxMetrics: 2, MaxItems: tp.Range(1, 8), NonEmpty: true})
 	}
+	if sizerName == "bytes" && tp.Chance(1, 2) {
+		gen.Enrich(tp, p1, false)
+		if p2 != nil {
+			gen.Enrich(tp, p2, false)
+		}
+	}
 	b1 := ad.marshal(p1)
 	var b2 []byte
 	want := ad.items(p1)
@@ -370,6 +376,9 @@ func (s *c04Sim) offer(p *c04Prod) {
 		s.r.Count("probe.oversized_single_item")
 	}
 	payload := s.ad.gen(s.r.Tape, s.ids, sh)
+	if s.cfg.Sizer == "bytes" && s.r.Tape.Chance(1, 3) {
+		gen.Enrich(s.r.Tape, payload, false) // fields of every kind and size for the byte accounting
+	}
 	items := s.ad.items(payload)
 	s.nreq++
 	p.reqNo = s.nreq
